@@ -435,7 +435,7 @@ PROPS["C17"] = {
 
 def _dc(check, iters, shards=16, extra=()):
     return bin_job("vq-dc", lambda seed, n: [["--check", check, "--seed", seed * 1000 + i, "--iters", iters] + list(extra) for i in range(shards)],
-                   f"vq-dc:{check} {shards}x{iters}", replay=lambda rep, path: ["--check", check, "--replay", path], timeout=3000)
+                   f"vq-dc:{check} {shards}x{iters}", replay=lambda rep, path: ["--check", rep.get("check", check), "--replay", path], timeout=3000)
 
 
 PROPS["C18"] = {
@@ -446,12 +446,19 @@ PROPS["C18"] = {
             "else header+tag+sampled payload), every truncation, insert/delete, splices with sibling packets, re-keyed copies, random byte "
             "strings - a mutant must not open. The path::secret::Map is the victim of forged control packets in five map states through its "
             "three entry points (events, entries, handshake requests and the next key id must be untouched; the genuine packet is the "
-            "positive control), data packets go through Map::open_once / pair_for_credentials. Non-trivial = packet with optional fields / "
+            "positive control), data packets go through Map::open_once / pair_for_credentials. Live part: dc streams in the simulator on a "
+            "loss-free network where genuine datagrams are accompanied (or preceded) by targeted forgeries - one bit of the tag, one bit of the "
+            "encrypted payload / control data, or value bits of the stream-offset field raised so that the copy parses as the same packet far "
+            "beyond the receive window; none can verify, so every stream must still complete byte-exact. Non-trivial = packet with optional fields / "
             "payload; distinct = hash of (kind, suite, field classes).",
     "assumptions": ["path secrets are inserted through the public handshake API with a harness-chosen exporter secret (no hook)",
                     "the decoders are driven through the generic packet::Packet entry point"],
-    "tiers": {"quick": [_dc("c18", 80, extra=["--evict-control", "1"])], "thorough": [_dc("c18", 3000, extra=["--evict-control", "1"])]},
-    "min_quick": {"evaluations": 20_000, "b1_mutants": 3_000_000, "b2_deliveries": 1_500_000, "b3_mutants": 1_000_000, "a_round_trips": 10_000},
+    "tiers": {"quick": [_dc("c18", 80, extra=["--evict-control", "1"]), _dc("c20", 5, extra=["--class", "forged_targeted"])],
+              "thorough": [_dc("c18", 3000, extra=["--evict-control", "1"]), _dc("c20", 150, extra=["--class", "forged_targeted"])]},
+    # violations of the live-stream part carry the stream engine's property id; in this check they are C18's
+    "adopt": ["C20"],
+    "min_quick": {"evaluations": 20_000, "b1_mutants": 3_000_000, "b2_deliveries": 1_500_000, "b3_mutants": 1_000_000, "a_round_trips": 10_000,
+                  "packets_forged": 100_000, "forged_targeted.stream_offset_jump": 1_000, "forged_targeted.control_tag_bit": 10_000},
     "min_thorough": {"evaluations": 700_000, "b1_mutants": 100_000_000},
 }
 
